@@ -104,6 +104,16 @@ fn parse_extends_conditional_type(
 // keyof <type>, -1
 // <type> | <type> , <type> & <type>, <type> in keyof <type>
 fn parse_sub_type(p: &mut LuaDocParser, limit: i32) -> DocParseResult {
+    if !p.enter_nesting() {
+        p.leave_nesting();
+        return Err(p.fail_nesting_too_deep());
+    }
+    let result = parse_sub_type_impl(p, limit);
+    p.leave_nesting();
+    result
+}
+
+fn parse_sub_type_impl(p: &mut LuaDocParser, limit: i32) -> DocParseResult {
     let uop = LuaOpKind::to_type_unary_operator(p.current_token());
     let mut cm = if uop != LuaTypeUnaryOperator::None {
         let range = p.current_token_range();
